@@ -546,7 +546,23 @@ type histOp struct {
 // written earlier by the same program, possibly on a machine or under a user
 // with another name (the name is program.host.user.timestamp.pid.log; only the
 // time stamp decides the order).
+// otherPid: the process id field of a planted file's name: this process's, or
+// that of an earlier run (the listing and GC do not look at it).
+func otherPid(rng *rand.Rand, own string) string {
+	switch rng.Intn(5) {
+	case 0, 1:
+		return own
+	case 2:
+		return "000001"
+	case 3:
+		return fmt.Sprintf("%06d", 2+rng.Intn(4000000))
+	default:
+		return "4194304"
+	}
+}
+
 type plantedFile struct {
+	Pid   string
 	Stamp int64
 	Size  int64
 	Ids   []int64 // user messages it holds (formatted entries), oldest first
@@ -856,6 +872,8 @@ func runHist(rng *rand.Rand, kind string, cal calib, seq *int, gcOnly, reopen bo
 			parts[2] = pf.User
 		}
 		pf.Host, pf.User = parts[1], parts[2]
+		pf.Pid = otherPid(rng, parts[4])
+		parts[4] = pf.Pid
 		pf.Name = strings.Join(parts, ".")
 		if err := ioutil.WriteFile(filepath.Join(r.dir, pf.Name), content, 0644); err != nil {
 			panic(err)
@@ -1341,6 +1359,7 @@ type progView struct {
 }
 
 type multiPlanted struct {
+	Pid   string
 	Prog  int
 	Stamp int64
 	Size  int64
@@ -1445,6 +1464,8 @@ func runMulti(rng *rand.Rand, calMain, calSec calib) (multiCase, bool) {
 		pf.Size = int64(len(content))
 		parts := strings.Split(rs[0].vl.FileName(st), ".")
 		parts[0] = mc.Progs[pi]
+		pf.Pid = otherPid(rng, parts[4])
+		parts[4] = pf.Pid
 		pf.Name = strings.Join(parts, ".")
 		if err := ioutil.WriteFile(filepath.Join(dir, pf.Name), content, 0644); err != nil {
 			panic(err)
